@@ -221,7 +221,7 @@ def sample_sl2(kx, ky):
     def samp(rng):
         g0, xs = _inc_grid(rng, 3)
         g1, ys = _inc_grid(rng, 3)
-        vals = {'__arr__': [[{'__frac__': [rng.choice([-24, -8, -3, 0, 1, 5, 16, 40]), 8]} for _ in range(3)] for _ in range(3)], 'shape': [3, 3], 'dtype': 'real'}
+        vals = {'__arr__': [{'__frac__': [rng.choice([-24, -8, -3, 0, 1, 5, 16, 40]), 8]} for _ in range(9)], 'shape': [3, 3], 'dtype': 'real'}
         cx, cy = min(max(kx, 0), 1), min(max(ky, 0), 1)
         x = rng.choice([xs[cx], xs[cx + 1], xs[cx] + 1, xs[0] - 7, xs[-1] + 5])
         y = rng.choice([ys[cy], ys[cy + 1], ys[cy] + 1, ys[0] - 3, ys[-1] + 2])
@@ -254,3 +254,74 @@ for _kx in (-1, 0, 1, 2):
                  name=SL + '::Interp2DSlinear.interpolate[3x3 grid, brackets (%d, %d)]' % (_kx, _ky),
                  canaries=([('cross coefficient with the wrong sign', ('a[3] = c00 + c11 - c01 - c10', 'a[3] = c00 - c11 - c01 + c10'), 'post', SL + '::Interp2DSlinear.compute_coeffs')] if (_kx, _ky) == (1, 0) else
                            [('upper y bracket not mapped onto the last cell', ('if i_y == n - 1:\n            i_y = n - 2', 'if i_y == n - 1:\n            i_y = n - 1'), 'bounds', SL + '::Interp2DSlinear.compute_coeffs')] if (_kx, _ky) == (0, 2) else []))
+
+
+# ---- Interp1DAkima, one-point path, on a 5-point axis ---------------------------------------------------------
+# Statement (C15): exact on the nodes of the bracketing cell whatever the Akima weights are (exactness on linear data
+# stays in the bounded tier: the solver cannot discard the unequal-slope branches); (C16): the returned derivative is the derivative of the cubic
+# a + dx (b + dx (c + dx d)) that was evaluated.  Brackets -1 and 4 extrapolate linearly from the end nodes.
+AK = 'openmdao/components/interp_util/interp_akima.py'
+
+
+def native_ak(vals, np, om):
+    from pyvc.native_helpers import A, Fl
+    from openmdao.components.interp_util.interp_akima import Interp1DAkima
+    s = vals['self']
+    g = A(s['grid'][0])
+    t = Interp1DAkima((g,), A(s['values']), Interp1DAkima)
+    t.coeffs = {}
+    t.options['eps'] = Fl(dict(s['options'])['eps']) if not isinstance(s['options'], dict) else Fl(s['options']['eps'])
+    t.options['delta_x'] = Fl(dict(s['options'])['delta_x']) if not isinstance(s['options'], dict) else Fl(s['options']['delta_x'])
+    return dict(self=t, x=A(vals['x']), idx=[int(vals['idx'][0])]), dict(ng=5)
+
+
+def native_ak_lin(vals, np, om):
+    kw, sz = native_ak(vals, np, om)
+    from pyvc.native_helpers import Fl
+    sz = dict(sz, al=Fl(vals['al']), be=Fl(vals['be']))
+    return kw, sz
+
+
+def sample_ak(k, linear):
+    def samp(rng):
+        g, xs = _inc_grid(rng, 5)
+        al = be = 0
+        if linear:
+            al, be = rng.choice([-3, 0, 2]), rng.choice([-2, 1, 3])
+            vs = [al * 8 + be * x for x in xs]
+        else:
+            vs = [rng.choice([-24, -8, -3, 0, 1, 5, 16, 40]) for _ in range(5)]
+        vals = {'__arr__': [{'__frac__': [v, 8]} for v in vs], 'shape': [5], 'dtype': 'real'}
+        c = min(max(k, 0), 3)
+        x = rng.choice([xs[c], xs[c + 1], xs[c] + 1, xs[0] - 7, xs[-1] + 5, (xs[c] + xs[c + 1]) // 2])
+        return {'self': {'__obj__': 'Interp1DAkima', 'id': 0, 'attrs': {'grid': {'__seq__': [g], 'tuple': True}, 'values': vals, 'coeffs': {'__dict__': []},
+                                                                          'options': {'__dict__': [['eps', {'__frac__': [1, 10 ** 9]}], ['delta_x', {'__frac__': [rng.choice([0, 0, 1]), 8]}]]}}},
+                'x': {'__arr__': [{'__frac__': [x, 8]}], 'shape': [1], 'dtype': 'real'}, 'idx': {'__seq__': [k], 'tuple': False},
+                'al': {'__frac__': [al, 1]}, 'be': {'__frac__': [be, 1]}}
+    return samp
+
+
+def _ak_self():
+    return Obj('Interp1DAkima', grid=TupleT(Arr(5)), values=Arr(5), coeffs=DictT({}), options=DictT({'eps': Real(), 'delta_x': Real()}))
+
+
+AKREQ = ['all(self.grid[0][k] < self.grid[0][k + 1] for k in range(4))', "self.options['eps'] > 0", "self.options['delta_x'] >= 0"]
+for _k in (-1, 0, 1, 2, 3, 4):
+    _c = min(max(_k, 0), 3)
+    GK, GK1, VK, VK1 = 'self.grid[0][%d]' % _c, 'self.grid[0][%d]' % (_c + 1), 'self.values[%d]' % _c, 'self.values[%d]' % (_c + 1)
+    ens = ['len(result[1]) == 1', 'result[2] is None and result[3] is None', '%d in self.coeffs' % _k,
+           # C16: the derivative returned is the derivative of the cubic that was evaluated (coefficients in the cache)
+           'approx(result[0], self.coeffs[{k}][0] + (x[0] - {g}) * (self.coeffs[{k}][1] + (x[0] - {g}) * (self.coeffs[{k}][2] + (x[0] - {g}) * self.coeffs[{k}][3])))'.format(k=_k, g=GK1 if _k == 4 else GK),
+           'approx(result[1][0], self.coeffs[{k}][1] + (x[0] - {g}) * (2 * self.coeffs[{k}][2] + 3 * (x[0] - {g}) * self.coeffs[{k}][3]))'.format(k=_k, g=GK1 if _k == 4 else GK)]
+    if 0 <= _k <= 3:
+        # exact on both nodes of the cell, for ANY table
+        ens += ['implies(x[0] == %s, approx(result[0], %s))' % (GK, VK), 'implies(x[0] == %s, approx(result[0], %s))' % (GK1, VK1)]
+    elif _k == -1:
+        ens += ['implies(x[0] == %s, approx(result[0], %s))' % (GK, VK)]
+    else:
+        ens += ['implies(x[0] == %s, approx(result[0], %s))' % (GK1, VK1)]
+    contract(AK + '::Interp1DAkima.interpolate', ['C15', 'C16'],
+             dict(self=_ak_self(), x=Arr(1), idx=ListT(_k)), requires=AKREQ, ensures=ens,
+             modifies=['self.coeffs'], inline={'compute_coeffs', 'abs_smooth_1d'}, native=native_ak, sampler=sample_ak(_k, False),
+             name=AK + '::Interp1DAkima.interpolate[5-point axis, bracket %d]' % _k,
+             canaries=([('quadratic coefficient misses the factor h', ('c = (3 * m3 - 2 * b - bp1) * h', 'c = (3 * m3 - 2 * b - bp1)'), 'post', AK + '::Interp1DAkima.compute_coeffs')] if _k == 1 else []))
